@@ -114,6 +114,18 @@ pub fn check(case: &Case, idx: u64, acc: &mut Acc) {
             let u = universe(*nuni);
             let d1 = x.dual(&u);
             let d2 = x.dual2(&u);
+            // a number created on ANOTHER thread answers the same (nothing about a number may live in the creating thread)
+            if idx % 8 == 0 {
+                let (xs, us) = (x.clone(), u.clone());
+                let (t1, t2) = std::thread::spawn(move || (xs.dual(&us), xs.dual2(&us))).join().expect("builder thread");
+                for list in ordered_sublists(nuni + 1) {
+                    let req: Vec<String> = list.iter().map(|i| sym(*nuni, *i, &u)).collect();
+                    acc.evals_add(2);
+                    if t1.gradient1(req.clone()) != d1.gradient1(req.clone()) || t2.gradient2(req.clone()) != d2.gradient2(req.clone()) {
+                        acc.violate("other-thread/read-back", idx, cj(), json!({"list": req}), json!("differs from the number built on this thread"));
+                    }
+                }
+            }
             // the same numbers with non-standard memory layouts (reversed-memory gradient, column-major Hessian) must
             // answer every request exactly as the standard ones
             {
